@@ -49,7 +49,7 @@ func hxs(s string) string { return hx([]byte(s)) }
 // ---------------------------------------------------------------- running a session in a child
 
 func runSession(s *Session) {
-	in, _ := json.Marshal(Session{API: s.API, Mode: s.Mode, Items: s.Items, TmpDir: s.TmpDir})
+	in, _ := json.Marshal(Session{API: s.API, Mode: s.Mode, Items: s.Items, TmpDir: s.TmpDir, Controllers: s.Controllers, GapUs: s.GapUs})
 	if s.TmpDir != "" {
 		defer os.RemoveAll(s.TmpDir)
 	}
@@ -99,6 +99,17 @@ loop:
 	}
 	_ = cmd.Process.Kill()
 	_ = cmd.Wait()
+	if s.Mode == "pipe" {
+		// one observation for the whole session
+		if len(s.Obs) == 0 {
+			tail := stderr.String()
+			if len(tail) > 1500 {
+				tail = tail[:1500]
+			}
+			s.Obs = []Obs{{Exit: !hung, NoReply: hung, StderrEnd: tail}}
+		}
+		return
+	}
 	if len(s.Obs) < len(s.Items) {
 		// the host ended (or froze) while handling item len(s.Obs)
 		tail := stderr.String()
@@ -261,10 +272,14 @@ func (s Session) coq() string {
 			}
 			ci = lib.App("ICmd", c, ob)
 		}
+		if o.NoSnap {
+			items = append(items, lib.Tuple(ci, "None"))
+			continue
+		}
 		if o.Dests == nil { // the host was gone: no snapshot; the model cannot agree with ONone anyway
 			o.Dests, o.Streams = last.Dests, last.Streams
 		}
-		items = append(items, lib.Tuple(ci, coqSnap(o)))
+		items = append(items, lib.Tuple(ci, "(Some "+coqSnap(o)+")"))
 		last = o
 	}
 	// what json.Valid says about every command and every reply of the session
@@ -320,6 +335,7 @@ func oracle(s Session, idx int, res *lib.Result) {
 		res.Violate(lib.Violation{Clause: clause, Case: idx, Replay: s, Key: clause + ":" + keyFamily(it),
 			Detail: fmt.Sprintf("session mode=%s api=%q item %d: %s -> %s", s.Mode, s.API, i, what, detail)})
 	}
+	prevKnown := true
 	for i, it := range s.Items {
 		o := s.Obs[i]
 		if o.Stuck {
@@ -375,6 +391,19 @@ func oracle(s Session, idx int, res *lib.Result) {
 				bad(i, "reply-differs-on-websocket", fmt.Sprintf("topic %q, websocket %q", trunc(o.Reply), trunc(o.WsReply)))
 			}
 		}
+		if !prevKnown && !o.NoSnap {
+			// first reading of the tables after a pipelined stretch: nothing to compare it with
+			prev, prevKnown = o, true
+			continue
+		}
+		if o.NoSnap {
+			prevKnown = false
+			// pipelined: the tables were not read after this command; only what the reply itself shows
+			if !json.Valid(it.Msg) && !answeredWithError {
+				bad(i, "invalid-command-executed", fmt.Sprintf("the message is not valid JSON but was answered with a result: %q", trunc(o.Reply)))
+			}
+			continue
+		}
 		if !json.Valid(it.Msg) {
 			// a message that is not JSON is not a command: refused, nothing changed
 			switch {
@@ -407,6 +436,143 @@ func oracle(s Session, idx int, res *lib.Result) {
 		}
 		prev = o
 	}
+}
+
+// zeroRule is what "list destination <id nobody added>" answers
+var zeroRule = []byte(`{"id":"","stream":"","destination":"","token":"","file":""}`)
+
+// pipeView judges a pipelined session by the property's own terms and returns the lock-step reading of it
+// that the model can follow: the commands the admin goroutine handled (the hub hands it a command only while
+// it is waiting, so under pipelining some are dropped before they reach the handler - that is the hub's
+// documented behaviour, counted, not judged), in the order it handled them, each with its reply.
+func pipeView(s Session, idx int, res *lib.Result) Session {
+	o := s.Obs[0]
+	bad := func(clause, fam, detail string) {
+		res.Violate(lib.Violation{Clause: clause, Case: idx, Replay: s, Key: clause + ":" + fam,
+			Detail: fmt.Sprintf("pipelined session api=%q, %d controller(s) on /ws/api sending %d commands without waiting for replies (pause of %d us after every third) -> %s", s.API, s.Controllers, len(s.Items), s.GapUs, detail)})
+	}
+	view := Session{API: s.API, Mode: "topic"}
+	if o.Exit || o.NoReply {
+		bad("process-exit", "pipelined", "the host process ended or froze during the burst: "+firstLine(o.StderrEnd))
+		return view
+	}
+	if o.Stuck {
+		bad("host-stuck-after-command", "pipelined", "after the burst the host's rule hubs did not take anything within 3 s")
+	}
+	// the replies on the topic, in order
+	var replies [][]byte
+	for _, m := range o.Topic {
+		if m.Reply {
+			replies = append(replies, m.Data)
+			if !json.Valid(m.Data) {
+				bad("reply-not-json", "pipelined", fmt.Sprintf("reply %q on the api topic is not JSON", trunc(m.Data)))
+			}
+		}
+	}
+	// a controller on the topic receives the replies (and the other controllers' commands): every websocket
+	// message it receives must be exactly ONE message of the topic, and they must come in the topic's order
+	for c, fs := range o.Frames {
+		ti := 0
+		for j, f := range fs {
+			found := false
+			for ; ti < len(o.Topic); ti++ {
+				if bytes.Equal(o.Topic[ti].Data, f) {
+					found = true
+					ti++
+					break
+				}
+			}
+			if !found {
+				why := "it is not among the (remaining) messages of the topic"
+				if !json.Valid(f) {
+					why = "it is not one JSON value and not one message of the topic: replies glued together or cut"
+				}
+				bad("frame-not-one-reply", "pipelined", fmt.Sprintf("controller %d received websocket message %d = %q: %s", c, j, trunc(f), why))
+				break
+			}
+		}
+	}
+	// which command each reply answers: commands appear on the topic in the order the hub took them
+	next := make([]int, s.Controllers) // per controller: index into its own commands
+	per := make([][]int, s.Controllers)
+	for i, it := range s.Items {
+		per[it.Ctl] = append(per[it.Ctl], i)
+	}
+	var pending []int // item indices, in topic order, not yet answered
+	who := map[string]int{}
+	confused := false // a command on the topic could not be told to a controller (two controllers under one hub name)
+	matches := func(it Item, r []byte) bool {
+		switch it.Class {
+		case "tag":
+			return bytes.Contains(r, []byte(`"`+it.Tag+`"`)) && !isErrorObject(r)
+		case "health":
+			return bytes.Equal(r, []byte(`{"healthcheck":"ok"}`))
+		case "zero":
+			return bytes.Equal(r, zeroRule)
+		case "noapi":
+			return bytes.Equal(r, []byte(`{"error":"Cannot delete apiRule"}`))
+		}
+		return bytes.Equal(r, []byte(`{"error":"Unrecognised Command"}`))
+	}
+	for _, m := range o.Topic {
+		if !m.Reply {
+			// whose command: a controller is known by the hub name its first (unique) command came under
+			c, known := who[m.From]
+			if !known {
+				for k := 0; k < s.Controllers; k++ {
+					if next[k] == 0 && len(per[k]) > 0 && bytes.Equal(s.Items[per[k][0]].Msg, m.Data) {
+						c, known = k, true
+						who[m.From] = k
+						break
+					}
+				}
+			}
+			if !known || next[c] >= len(per[c]) || !bytes.Equal(s.Items[per[c][next[c]]].Msg, m.Data) {
+				confused = true
+				continue
+			}
+			pending = append(pending, per[c][next[c]])
+			next[c]++
+			continue
+		}
+		hit := -1
+		for p, i := range pending {
+			if matches(s.Items[i], m.Data) {
+				hit = p
+				break
+			}
+		}
+		if hit < 0 && confused {
+			continue
+		}
+		if hit < 0 {
+			bad("reply-answers-no-command", "pipelined", fmt.Sprintf("reply %q on the topic answers none of the commands sent before it and not yet answered", trunc(m.Data)))
+			continue
+		}
+		i := pending[hit]
+		pending = pending[hit+1:] // commands before it were dropped by the hub before they reached the handler
+		view.Items = append(view.Items, s.Items[i])
+		view.Obs = append(view.Obs, Obs{HasReply: true, Reply: m.Data, NoSnap: true})
+	}
+	if confused {
+		res.Count("pipelined:discarded-controllers-not-told-apart")
+		res.Notes = append(res.Notes, "a pipelined session was not given to the model: two controllers came under one hub name")
+		view.Items, view.Obs = nil, nil
+	}
+	if len(replies) > len(s.Items) {
+		bad("more-replies-than-commands", "pipelined", fmt.Sprintf("%d replies for %d commands", len(replies), len(s.Items)))
+	}
+	if n := len(view.Obs); n > 0 && o.Dests != nil {
+		view.Obs[n-1].NoSnap = false
+		view.Obs[n-1].Dests, view.Obs[n-1].Streams = o.Dests, o.Streams
+	}
+	res.CountN("pipelined:commands-sent", len(s.Items))
+	res.CountN("pipelined:commands-answered", len(replies))
+	res.CountN("pipelined:commands-dropped-by-the-hub-before-the-handler", len(s.Items)-len(replies))
+	for _, fs := range o.Frames {
+		res.CountN("pipelined:websocket-messages-received-by-controllers", len(fs))
+	}
+	return view
 }
 
 // keyFamily is the stable part of a violation key: verb/what of the command as the host decodes it (or the
@@ -462,6 +628,13 @@ func main() {
 	} else {
 		sessions = corpus()
 		n := a.Pick(48, 480)
+		// pipelined sessions: controllers that do not wait for replies
+		sessions = append(sessions, genPipeSession(lib.NewRng(7), 1, 200, 0), genPipeSession(lib.NewRng(9), 1, 300, 20), genPipeSession(lib.NewRng(10), 1, 300, 100),
+			genPipeSession(lib.NewRng(8), 3, 120, 0), genPipeSession(lib.NewRng(11), 2, 150, 30))
+		for i := 0; i < a.Pick(4, 40); i++ {
+			r := rng.Fork()
+			sessions = append(sessions, genPipeSession(r, r.Range(1, 3), r.Range(50, 300), []int{0, 0, 10, 30, 100, 300}[r.Intn(6)]))
+		}
 		for i := 0; i < n; i++ {
 			r := rng.Fork()
 			mode := []string{"topic", "ctl", "ws", "direct", "topic", "ws"}[i%6]
@@ -491,9 +664,14 @@ func main() {
 
 	coq := make([]string, len(sessions))
 	for i, s := range sessions {
+		orig := s
+		if s.Mode == "pipe" {
+			s = pipeView(s, i, res)
+			res.Count(fmt.Sprintf("sessions:pipe:%d-controllers", orig.Controllers))
+		}
 		oracle(s, i, res)
 		coq[i] = s.coq()
-		res.Count("sessions:" + s.Mode)
+		res.Count("sessions:" + orig.Mode)
 		if s.API == "" {
 			res.Count("sessions:no-control-connection")
 		}
@@ -565,8 +743,8 @@ func main() {
 				}
 			}
 		}
-		res.Sample(s)
-		res.Cases = append(res.Cases, s)
+		res.Sample(orig)
+		res.Cases = append(res.Cases, orig)
 	}
 	hdr := "From Coq Require Import Uint63.\nFrom Relay Require Import Base.Prelude Base.AList Model.AdminJson Model.AdminApi Corr.C18."
 	if _, err := lib.WriteShards(a.Out, hdr, "case", coq, res.ShardSize); err != nil {
